@@ -570,6 +570,15 @@ def oracle_c07(R):
     from s3transfer.exceptions import CancelledError, FatalError
     v = []
     end = R.end
+    if R.sched.deadlock:
+        stuck = [r['i'] for r in R.all_recs() if r['future'] is not None
+                 and cancel_sources(R, r)
+                 and r['i'] not in R.announced]
+        if stuck:
+            v.append(('c07:cancelled-transfer-never-finished',
+                      f'transfers {stuck} were cancelled but never finished: '
+                      f'result()/shutdown() hang ({R.sched.deadlock})'))
+        return v
     how = end.get('how')
     interrupted_end = any(st >= end.get('cancel_step', 1 << 60)
                           for (st, w) in R.sched.kbi_delivered)
